@@ -297,6 +297,11 @@ func (g *Gen) applyContract(fr *frame, st *State, fc *FuncContract, key string, 
 		g.guard(fr, st, "callee-panic", shortKey(key)+" when "+c.Src, smtNot(t))
 	}
 	if fc.NoReturn {
+		if g.fc != nil && g.fc.AssumeUnreachable[shortName(key)] && fr.fn == g.fn {
+			g.trusted["calls to "+shortKey(key)+" in "+shortKey(funcKey(g.fn))+" are assumed unreachable (assume_unreachable)"] = true
+			st.reach = "false"
+			return g.freshValue(st, "noret", rt)
+		}
 		g.panicHere(fr, st, "noreturn-call", shortKey(key))
 		return g.freshValue(st, "noret", rt)
 	}
